@@ -245,3 +245,35 @@ def known_variant(ip, st, t, n=2):
         if ip.entails(st, eq(dt, I(k))):
             return k
     return None
+
+
+def owners(cr, paths):
+    """who-may-call / where-may-it-happen sets are stated over the functions of the reference tree.  A site inside a
+    helper that was introduced later (not in the inventory) belongs to the functions that call that helper (a closure:
+    to the function it is written in), transitively."""
+    from .inventory import KNOWN
+    callers = {}
+    for f in cr.nontest_fns():
+        for bb, c, args, dest, tgt, line, exp in f.calls():
+            nm = c.get('resolved') or c.get('callee')
+            if nm and c.get('local'):
+                callers.setdefault(nm, set()).add(f.path)
+    out = set()
+    for p in paths:
+        work, seen = [p], set()
+        while work:
+            q = work.pop()
+            if q in seen:
+                continue
+            seen.add(q)
+            if q in KNOWN:
+                out.add(q)
+                continue
+            if '::{closure' in q:
+                work.append(q.split('::{closure')[0])
+                continue
+            cs = callers.get(q, set())
+            if not cs:
+                out.add(q)      # nobody calls it: stands for itself
+            work.extend(cs)
+    return out
